@@ -107,7 +107,7 @@ type respScript struct {
 	Hdr    map[string]string
 	Body   []byte
 	Delay  time.Duration
-	Abort  bool // close the connection without a response (transport error at the client)
+	Abort  bool   // close the connection without a response (transport error at the client)
 	Raw    []byte // with Abort: bytes written before the connection is closed (e.g. a truncated response)
 }
 
@@ -193,7 +193,7 @@ func testCert() tls.Certificate {
 // startHTTPTarget starts a real net/http server on the simulated network (call inside the bubble).
 // tlsOpts tunes the TLS side of the target (http2 checks).
 type tlsOpts struct {
-	H2           bool         // offer and serve HTTP/2
+	H2            bool             // offer and serve HTTP/2
 	FailHandshake func(n int) bool // the n-th TLS handshake (0-based) is answered with a fatal alert (internal_error)
 }
 
